@@ -3,6 +3,7 @@ From Coq Require Import ZArith Bool List Lia ZifyBool.
 Import ListNotations.
 From Sunrise Require Import Base.Outcome Base.Dec Base.DecLemmas Amm.Math Amm.Pool Sys.Loops.
 Local Open Scope Z_scope.
+Local Open Scope res_scope.
 Ltac Zify.zify_post_hook ::= Z.div_mod_to_equations.
 
 (* ------------------------------------------------------------------ the unguarded loops are Math.v's *)
@@ -24,10 +25,11 @@ Lemma multiplied_price_to_tick_g_false mp tp :
   multiplied_price_to_tick_g false SEARCH_FUEL mp tp = multiplied_price_to_tick mp tp.
 Proof.
   unfold multiplied_price_to_tick_g, multiplied_price_to_tick.
+  generalize SEARCH_FUEL. intros fuel.
   destruct (mp <? 0); [reflexivity|].
   destruct ((MAX_MULT_SPOT <? mp) || (mp <? MIN_MULT_SPOT)); [reflexivity|].
-  destruct (lift_pow (pow (price_ratio tp) (base_offset tp))) as [pw| |]; cbn; try reflexivity.
-  destruct (of_opt (dmul MULT pw)) as [o| |]; cbn; try reflexivity.
+  destruct (lift_pow (pow (price_ratio tp) (base_offset tp))) as [pw| |]; unfold rbind; try reflexivity.
+  destruct (of_opt (dmul MULT pw)) as [o| |]; try reflexivity.
   destruct (mp =? o); [reflexivity|].
   destruct (o <? mp); [apply search_up_g_false|apply search_down_g_false].
 Qed.
@@ -64,9 +66,10 @@ Qed.
 Lemma dmul_step mp ratio mp' : 0 <= mp -> 0 < ratio -> dmul mp ratio = Some mp' ->
   2 * mp * ratio - P <= 2 * mp' * P /\ 2 * mp' * P <= 2 * mp * ratio + P /\ 0 <= mp'.
 Proof.
-  intros Hmp Hr H. pose proof (dmul_bracket _ _ _ H) as Hb.
-  pose proof (dmul_nonneg _ _ _ Hmp ltac:(lia) H).
-  assert (HP : P = 2 * HALF) by reflexivity. lia.
+  intros Hmp Hr H. pose proof (dmul_some _ _ _ H) as Hs. pose proof (chop_round_bracket (mp * ratio)) as Hb.
+  rewrite <- Hs in Hb.
+  pose proof (dmul_nonneg mp ratio mp' Hmp ltac:(lia) H).
+  unfold P, HALF in *. lia.
 Qed.
 
 (* potentials: Phi x = 2*d*x - ratio (upwards), Psi x = 2*d*x - P (downwards), d = ratio - P *)
@@ -104,7 +107,7 @@ Proof.
   - destruct (Z.leb_spec mp offset); [discriminate|]. exists mp. cbn. split; lia.
   - destruct (Z.leb_spec mp offset); [discriminate|].
     destruct (dquo mp ratio) as [mp'|] eqn:Hq; cbn in H; [|discriminate].
-    destruct (g && negb (mp' <? mp)); [injection H as H; exfalso; exact (E_FUEL_not_oob H)|].
+    destruct (g && negb (mp' <? mp)); [discriminate H|].
     pose proof (Phi_step mp ratio mp' Hmp Hr Hq) as Hs.
     destruct (dquo_step mp ratio mp' Hmp ltac:(unfold P in *; lia) Hq) as (_ & _ & Hmp').
     destruct (IH mp' (t + 1) Hmp' H) as (mpf & Hof & Hinv).
@@ -127,7 +130,7 @@ Proof.
   - destruct (Z.leb_spec offset mp); [discriminate|]. exists mp. cbn. split; lia.
   - destruct (Z.leb_spec offset mp); [discriminate|].
     destruct (dmul mp ratio) as [mp'|] eqn:Hq; cbn in H; [|discriminate].
-    destruct (g && negb (mp <? mp')); [injection H as H; exfalso; exact (E_FUEL_not_oob H)|].
+    destruct (g && negb (mp <? mp')); [discriminate H|].
     pose proof (Psi_step mp ratio mp' Hmp Hr Hq) as Hs.
     destruct (dmul_step mp ratio mp' Hmp ltac:(unfold P in *; lia) Hq) as (_ & _ & Hmp').
     destruct (IH mp' (t - 1) Hmp' H) as (mpf & Hof & Hinv).
@@ -239,7 +242,7 @@ Proof.
   rewrite Z2Nat.id in Hinv by lia.
   assert (HPhif : 2 * d <= Phi ratio mpf).
   { unfold Phi. fold d. assert (2 * d * (offset + 1) <= 2 * d * mpf) by (apply Z.mul_le_mono_nonneg_l; lia). lia. }
-  pose proof (ratio_pow_grows ratio k Hr Hk) as Hg. fold d m in Hg.
+  pose proof (ratio_pow_grows ratio k Hr Hk) as Hg. cbv zeta in Hg. fold d m in Hg.
   assert (HP : 0 < P) by reflexivity.
   assert (HPn : 0 < P ^ (m * k)) by (apply Z.pow_pos_nonneg; lia).
   assert (2 * (2 ^ k * P ^ (m * k)) <= Phi ratio mpf * ratio ^ (m * k)).
@@ -271,7 +274,7 @@ Proof.
   assert (HPsi0 : 1 <= Psi ratio mp) by (unfold Psi; fold d; lia).
   assert (HPsif : Psi ratio mpf + 2 * d <= Psi ratio offset).
   { unfold Psi. fold d. assert (2 * d * (mpf + 1) <= 2 * d * offset) by (apply Z.mul_le_mono_nonneg_l; lia). lia. }
-  pose proof (ratio_pow_grows ratio k Hr Hk) as Hg. fold d m in Hg.
+  pose proof (ratio_pow_grows ratio k Hr Hk) as Hg. cbv zeta in Hg. fold d m in Hg.
   assert (HP : 0 < P) by reflexivity.
   assert (HPn : 0 < P ^ (m * k)) by (apply Z.pow_pos_nonneg; lia).
   assert (ratio ^ (m * k) <= Psi ratio mp * ratio ^ (m * k)).
@@ -339,4 +342,271 @@ Proof.
   destruct (Z_le_gt_dec (t - t') (search_down_bound ratio offset)) as [|Hgt]; [assumption|exfalso].
   specialize (Hall (Z.to_nat (search_down_bound ratio offset)) ltac:(lia)).
   revert Hall. apply search_down_terminates; try assumption. lia.
+Qed.
+
+(* ------------------------------------------------------------------ inputs on which the loops as found never end *)
+Lemma chop_round_mulP k : chop_round (k * P) = k.
+Proof.
+  assert (HP : 0 < P) by reflexivity.
+  assert (Hpos : forall j, 0 <= j -> chop_round_pos (j * P) = j).
+  { intros j Hj. unfold chop_round_pos. rewrite Z.mod_mul by lia. cbn. apply Z.div_mul. lia. }
+  unfold chop_round. destruct (Z.ltb_spec (k * P) 0).
+  - replace (- (k * P)) with ((- k) * P) by ring. rewrite Hpos by nia. lia.
+  - apply Hpos. nia.
+Qed.
+
+Lemma dquo_by_one mp : Z.abs mp <= DEC_LIM -> dquo mp P = Some mp.
+Proof.
+  intros H. unfold dquo. cbn [Z.eqb P]. change (P =? 0) with false. cbv iota.
+  replace (mp * (P * P)) with (mp * P * P) by ring. rewrite Z.quot_mul by discriminate.
+  rewrite chop_round_mulP. unfold chk, Dec.in_range. destruct (Z.leb_spec (Z.abs mp) DEC_LIM); [reflexivity|lia].
+Qed.
+
+(* a fixed point of the rounded step: the loop as found never leaves it *)
+Lemma search_up_stall ratio offset mp : dquo mp ratio = Some mp -> offset < mp ->
+  forall fuel t, search_up_g false fuel mp offset ratio t = Err E_FUEL.
+Proof.
+  intros Hq Hgt. induction fuel as [|f IH]; intros t; cbn [search_up_g];
+    destruct (Z.leb_spec mp offset); try lia; [reflexivity|].
+  rewrite Hq. cbn [of_opt rbind andb]. apply IH.
+Qed.
+Lemma search_down_stall ratio offset mp : dmul mp ratio = Some mp -> mp < offset ->
+  forall fuel t, search_down_g false fuel mp offset ratio t = Err E_FUEL.
+Proof.
+  intros Hq Hgt. induction fuel as [|f IH]; intros t; cbn [search_down_g];
+    destruct (Z.leb_spec offset mp); try lia; [reflexivity|].
+  rewrite Hq. cbn [of_opt rbind andb]. apply IH.
+Qed.
+
+(* price_ratio = 1: the upward search (Amm/Math.v's, i.e. the code as found) never ends *)
+Theorem price_ratio_one_diverges mp offset : offset < mp -> Z.abs mp <= DEC_LIM ->
+  forall fuel t, search_up fuel mp offset P t = Err E_FUEL.
+Proof.
+  intros Hgt Hr fuel t. rewrite <- search_up_g_false. apply search_up_stall; [apply dquo_by_one; exact Hr|exact Hgt].
+Qed.
+
+(* price_ratio <= 1: the downward search never ends (the price only falls) *)
+Theorem price_ratio_le_one_diverges ratio offset : 0 < ratio <= P ->
+  forall fuel mp t, 0 <= mp < offset -> mp <= DEC_LIM -> search_down fuel mp offset ratio t = Err E_FUEL.
+Proof.
+  intros Hr fuel. induction fuel as [|f IH]; intros mp t Hmp Hlim; cbn [search_down];
+    destruct (Z.leb_spec offset mp); try lia; [reflexivity|].
+  assert (HP : 0 < P) by reflexivity.
+  pose proof (chop_round_bracket (mp * ratio)) as Hb.
+  assert (Hn : 0 <= chop_round (mp * ratio)) by (apply chop_round_nonneg; nia).
+  assert (Hle : chop_round (mp * ratio) <= mp).
+  { assert (chop_round (mp * ratio) * P <= mp * P + HALF) by nia. unfold P, HALF in *. lia. }
+  unfold dmul, chk, Dec.in_range. destruct (Z.leb_spec (Z.abs (chop_round (mp * ratio))) DEC_LIM); [|lia].
+  cbn [of_opt rbind]. apply IH; lia.
+Qed.
+
+(* the default ratio 1.0001, a price of 1024 * 10^-18 (first position: 10^33 base units against
+   1 quote unit): 1024 * 1.0001 rounds back to 1024 *)
+Definition RATIO_DEFAULT : Z := 1000100000000000000.
+Definition tp_default : tick_params := {| price_ratio := RATIO_DEFAULT; base_offset := 0 |}.
+Theorem tiny_price_default_ratio_diverges :
+  first_position_search 1 (10 ^ 33) tp_default = Some (false, 1024, MULT) /\
+  forall fuel t, search_down fuel 1024 MULT RATIO_DEFAULT t = Err E_FUEL.
+Proof.
+  split; [vm_compute; reflexivity|]. intros fuel t. rewrite <- search_down_g_false.
+  apply search_down_stall; [vm_compute; reflexivity|reflexivity].
+Qed.
+
+(* ------------------------------------------------------------------ a lower bound (ratio barely above one) *)
+Lemma dquo_total_ge_one mp ratio : 0 <= mp <= DEC_LIM -> P <= ratio -> exists r, dquo mp ratio = Some r.
+Proof.
+  intros Hmp Hr. assert (HP : 0 < P) by reflexivity. unfold dquo.
+  destruct (Z.eqb_spec ratio 0); [lia|].
+  assert (Hn : 0 <= mp * (P * P)) by nia.
+  rewrite Z.quot_div_nonneg by lia. set (q := mp * (P * P) / ratio).
+  assert (Hq : 0 <= q /\ q * ratio <= mp * (P * P)).
+  { unfold q. split; [apply Z.div_pos; lia|]. pose proof (Z.mul_div_le (mp * (P * P)) ratio ltac:(lia)). lia. }
+  assert (HqP : q <= mp * P) by nia.
+  pose proof (chop_round_bracket q) as Hb. pose proof (chop_round_nonneg q ltac:(lia)) as Hc.
+  assert (chop_round q <= mp).
+  { assert (chop_round q * P <= mp * P + HALF) by lia. unfold P, HALF in *. lia. }
+  unfold chk, Dec.in_range. destruct (Z.leb_spec (Z.abs (chop_round q)) DEC_LIM); [eexists; reflexivity|lia].
+Qed.
+
+Lemma search_up_lower_bound g ratio offset mp0 :
+  P + 1 <= ratio -> 0 <= offset -> 2 * ratio <= offset * (ratio - P) -> 0 <= mp0 <= DEC_LIM ->
+  forall fuel mp t, mp <= mp0 ->
+    Z.of_nat fuel * (mp0 * (ratio - P) + ratio) < (mp - offset) * ratio ->
+    search_up_g g fuel mp offset ratio t = Err E_FUEL.
+Proof.
+  intros Hr Ho Hbig Hlim. assert (HP : 0 < P) by reflexivity.
+  remember (ratio - P) as d eqn:Hd. assert (Hd1 : 1 <= d) by lia.
+  assert (HD : 0 < mp0 * d + ratio) by nia.
+  induction fuel as [|f IH]; intros mp t Hle Hfuel; cbn [search_up_g].
+  - destruct (Z.leb_spec mp offset); [nia|reflexivity].
+  - assert (Hgt : offset < mp).
+    { destruct (Z_le_gt_dec mp offset); [|lia].
+      assert (0 <= Z.of_nat (S f) * (mp0 * d + ratio)) by (apply Z.mul_nonneg_nonneg; lia).
+      assert ((mp - offset) * ratio <= 0) by nia. lia. }
+    destruct (Z.leb_spec mp offset); [lia|].
+    destruct (dquo_total_ge_one mp ratio ltac:(lia) ltac:(lia)) as (mp' & Hq). rewrite Hq. cbn [of_opt rbind].
+    destruct (dquo_step mp ratio mp' ltac:(lia) ltac:(lia) Hq) as (Hu & Hl & Hn).
+    assert (Hmd : 2 * ratio < mp * d).
+    { assert ((offset + 1) * d <= mp * d) by (apply Z.mul_le_mono_nonneg_r; lia). lia. }
+    assert (HmpP : mp * P = mp * ratio - mp * d) by (subst d; ring).
+    assert (Hprog : mp' < mp).
+    { destruct (Z_lt_ge_dec mp' mp); [assumption|exfalso].
+      assert (2 * mp * ratio <= 2 * mp' * ratio) by (apply Z.mul_le_mono_nonneg_r; lia).
+      lia. }
+    replace (g && negb (mp' <? mp)) with false by (destruct g; cbn; [|reflexivity]; destruct (Z.ltb_spec mp' mp); [reflexivity|lia]).
+    apply IH; [lia|].
+    rewrite Nat2Z.inj_succ in Hfuel.
+    assert (mp * d <= mp0 * d) by (apply Z.mul_le_mono_nonneg_r; lia).
+    replace ((mp' - offset) * ratio) with (mp' * ratio - offset * ratio) by ring.
+    replace ((mp - offset) * ratio) with (mp * ratio - offset * ratio) in Hfuel by ring.
+    replace (Z.succ (Z.of_nat f) * (mp0 * d + ratio)) with (Z.of_nat f * (mp0 * d + ratio) + (mp0 * d + ratio)) in Hfuel by ring.
+    lia.
+Qed.
+
+Theorem search_up_at_least g ratio offset mp t fuel :
+  P + 1 <= ratio -> 0 <= offset -> 2 * ratio <= offset * (ratio - P) -> 0 <= mp <= DEC_LIM ->
+  Z.of_nat fuel <= search_up_lower ratio mp offset ->
+  search_up_g g fuel mp offset ratio t = Err E_FUEL.
+Proof.
+  intros Hr Ho Hbig Hmp Hf. apply (search_up_lower_bound g ratio offset mp); try assumption; try lia.
+  assert (Hd1 : 1 <= ratio - P) by lia.
+  unfold search_up_lower in Hf. set (D := mp * (ratio - P) + ratio) in *.
+  assert (HD : 0 < D) by (unfold D; assert (HP : 0 < P) by reflexivity; nia).
+  assert (Hdiv : (Z.of_nat fuel + 1) <= (mp - offset) * ratio / D) by lia.
+  pose proof (Z.mul_div_le ((mp - offset) * ratio) D HD).
+  assert (D * (Z.of_nat fuel + 1) <= D * ((mp - offset) * ratio / D)) by (apply Z.mul_le_mono_nonneg_l; lia).
+  nia.
+Qed.
+
+(* price_ratio = 1 + 10^-18, first position 1000 base units against 2000 quote units (price 2):
+   at least 4 * 10^17 iterations *)
+Theorem price_ratio_next_to_one_astronomic g : exists mp,
+  first_position_search 2000 1000 {| price_ratio := P + 1; base_offset := 0 |} = Some (true, mp, MULT) /\
+  forall fuel t, Z.of_nat fuel <= 4 * 10 ^ 17 -> search_up_g g fuel mp MULT (P + 1) t = Err E_FUEL.
+Proof.
+  exists 2000000000000000000560908991588312401.
+  split; [vm_compute; reflexivity|]. intros fuel t Hf.
+  assert (Hlow : 4 * 10 ^ 17 <= search_up_lower (P + 1) 2000000000000000000560908991588312401 MULT)
+    by (vm_compute; congruence).
+  apply search_up_at_least.
+  - lia.
+  - vm_compute; congruence.
+  - vm_compute; congruence.
+  - split; vm_compute; congruence.
+  - lia.
+Qed.
+
+(* ------------------------------------------------------------------ LegacyDec.Power *)
+Lemma log2_halve i : 2 <= i -> Z.log2 i = 1 + Z.log2 (i / 2).
+Proof.
+  intros Hi. pose proof (Z.div_mod i 2 ltac:(lia)) as Hd. pose proof (Z.mod_pos_bound i 2 ltac:(lia)) as Hm.
+  assert (Hq : 0 < i / 2) by lia.
+  destruct (Z.eq_dec (i mod 2) 0) as [E|E].
+  - replace i with (2 * (i / 2)) at 1 by lia. rewrite Z.log2_double by lia. lia.
+  - replace i with (2 * (i / 2) + 1) at 1 by lia. rewrite Z.log2_succ_double by lia. lia.
+Qed.
+
+(* the square-and-multiply loop makes at most log2(power) passes: 63 for a uint64 *)
+Lemma power_iters_le fuel : forall i, power_iters fuel i <= Z.log2 i.
+Proof.
+  induction fuel as [|f IH]; intros i; cbn [power_iters]; destruct (Z.leb_spec i 1);
+    try (pose proof (Z.log2_nonneg i); lia).
+  rewrite (log2_halve i) by lia. specialize (IH (i / 2)). lia.
+Qed.
+Theorem power_iters_uint64 fuel i : i < 2 ^ 64 -> power_iters fuel i <= 63.
+Proof.
+  intros Hi. pose proof (power_iters_le fuel i).
+  destruct (Z_le_gt_dec i 0) as [Hn|Hp].
+  - rewrite Z.log2_nonpos in H by lia. lia.
+  - assert (Z.log2 i < 64) by (apply Z.log2_lt_pow2; lia). lia.
+Qed.
+
+(* the fuel of the model (70) is never what ends the loop for a uint64 power: with any two
+   sufficient amounts of fuel the result is the same (None = overflow panic only) *)
+Lemma power_loop_fuel f1 : forall f2 i d tmp, i < 2 ^ Z.of_nat f1 -> i < 2 ^ Z.of_nat f2 ->
+  power_loop f1 i d tmp = power_loop f2 i d tmp.
+Proof.
+  induction f1 as [|f1 IH]; intros f2 i d tmp H1 H2.
+  - cbn in H1. destruct f2; cbn [power_loop]; destruct (Z.leb_spec i 1); try reflexivity; lia.
+  - destruct f2 as [|f2]; cbn [power_loop]; destruct (Z.leb_spec i 1); try reflexivity.
+    + cbn in H2. lia.
+    + rewrite Nat2Z.inj_succ, Z.pow_succ_r in H1, H2 by lia.
+      assert (i / 2 < 2 ^ Z.of_nat f1) by (apply Z.div_lt_upper_bound; lia).
+      assert (i / 2 < 2 ^ Z.of_nat f2) by (apply Z.div_lt_upper_bound; lia).
+      destruct (if Z.odd i then dmul tmp d else Some tmp) as [tmp'|]; cbn [obind]; [|reflexivity].
+      destruct (dmul d d) as [d'|]; cbn [obind]; [|reflexivity]. apply IH; assumption.
+Qed.
+
+(* ------------------------------------------------------------------ PowApprox *)
+(* |base - 1| <= 1/2 and |exponent| < 1: every pass at least divides the term by 3/2, so the
+   loop (term >= 10^-8) ends within 46 passes; the model's 4000 units of fuel are never used up *)
+Lemma pow_term_step term c x i t' : 0 <= term -> 0 <= c <= i * P -> 0 <= x <= HALF -> 1 <= i ->
+  (let? t1 := dmul term c in let? t2 := dmul t1 x in dquo t2 (i * P)) = Some t' ->
+  0 <= t' /\ 2 * t' <= term + 2.
+Proof.
+  intros Ht Hc Hx Hi H. assert (HP : 0 < P) by reflexivity.
+  destruct (dmul term c) as [t1|] eqn:E1; cbn [obind] in H; [|discriminate].
+  destruct (dmul t1 x) as [t2|] eqn:E2; cbn [obind] in H; [|discriminate].
+  pose proof (dmul_nonneg term c t1 Ht ltac:(lia) E1) as Ht1.
+  pose proof (dmul_nonneg t1 x t2 Ht1 ltac:(lia) E2) as Ht2.
+  pose proof (dmul_some _ _ _ E1) as S1. pose proof (chop_round_bracket (term * c)) as B1. rewrite <- S1 in B1.
+  pose proof (dmul_some _ _ _ E2) as S2. pose proof (chop_round_bracket (t1 * x)) as B2. rewrite <- S2 in B2.
+  destruct (dquo_step t2 (i * P) t' Ht2 ltac:(nia) H) as (Hu & _ & Hn). split; [exact Hn|].
+  assert (Htc : term * c <= term * (i * P)) by (apply Z.mul_le_mono_nonneg_l; lia).
+  assert (H1 : t1 <= term * i).
+  { assert (t1 * P <= term * i * P + HALF) by lia. unfold P, HALF in *. lia. }
+  assert (Htx : t1 * x <= t1 * HALF) by (apply Z.mul_le_mono_nonneg_l; lia).
+  assert (H2 : 2 * t2 <= t1 + 1).
+  { assert (t2 * P <= t1 * HALF + HALF) by lia. unfold P, HALF in *. lia. }
+  assert (2 * t' * i * P <= 2 * t2 * P + i * P) by lia.
+  assert (2 * t' * i <= 2 * t2 + i) by nia.
+  assert (2 * t' * i <= term * i + 1 + i) by lia.
+  assert (2 * t' * i <= (term + 2) * i) by nia.
+  nia.
+Qed.
+
+Lemma pow_approx_loop_fuel fuel : forall i exponent x xneg term sum negative,
+  1 <= i -> Z.abs exponent < P -> 0 <= x <= HALF -> 0 <= term ->
+  term * 2 ^ Z.of_nat fuel < POW_PRECISION * 3 ^ Z.of_nat fuel ->
+  pow_approx_loop fuel i exponent x xneg term sum negative <> None.
+Proof.
+  induction fuel as [|f IH]; intros i exponent x xneg term sum negative Hi He Hx Ht Hf;
+    cbn [pow_approx_loop]; destruct (Z.ltb_spec term POW_PRECISION); try discriminate.
+  - change (Z.of_nat 0) with 0 in Hf. rewrite !Z.pow_0_r in Hf. lia.
+  - assert (HP : 0 < P) by reflexivity.
+    destruct (abs_diff_sign exponent ((i - 1) * P)) as [[c cneg]|] eqn:Ea; [|discriminate].
+    assert (Hc : 0 <= c <= i * P).
+    { unfold abs_diff_sign in Ea. destruct (Z.leb_spec ((i - 1) * P) exponent).
+      - destruct (dsub exponent ((i - 1) * P)) as [dd|] eqn:Ed; cbn [obind] in Ea; [|discriminate].
+        injection Ea as <- _. apply dsub_some in Ed. unfold P in *. lia.
+      - destruct (dadd (- exponent) ((i - 1) * P)) as [dd|] eqn:Ed; cbn [obind] in Ea; [|discriminate].
+        injection Ea as <- _. apply dadd_some in Ed. unfold P in *. lia. }
+    destruct (let? t1 := dmul term c in let? t2 := dmul t1 x in dquo t2 (i * P)) as [t'|] eqn:Et; [|discriminate].
+    destruct (pow_term_step term c x i t' Ht Hc Hx Hi Et) as (Hn & Hh).
+    destruct (t' =? 0); [discriminate|].
+    destruct (if if cneg then negb (if xneg then negb negative else negative) else if xneg then negb negative else negative
+              then dsub sum t' else dadd sum t'); [|discriminate].
+    apply IH; try lia.
+    rewrite Nat2Z.inj_succ, !Z.pow_succ_r in Hf by lia.
+    assert (0 < 2 ^ Z.of_nat f) by (apply Z.pow_pos_nonneg; lia).
+    assert (0 < 3 ^ Z.of_nat f) by (apply Z.pow_pos_nonneg; lia).
+    assert (H3 : 3 * t' <= 2 * term) by (unfold POW_PRECISION in *; lia).
+    assert (3 * t' * 2 ^ Z.of_nat f <= 2 * term * 2 ^ Z.of_nat f) by (apply Z.mul_le_mono_nonneg_r; lia).
+    nia.
+Qed.
+
+Theorem pow_approx_terminates base exponent :
+  HALF <= base <= P + HALF -> Z.abs exponent < P -> pow_approx base exponent <> None.
+Proof.
+  intros Hb He. unfold pow_approx.
+  destruct (base <=? 0); [discriminate|]. destruct (exponent =? 0); [discriminate|].
+  destruct (exponent =? HALF_DEC); [discriminate|].
+  destruct (abs_diff_sign base P) as [[x xneg]|] eqn:Ea; [|discriminate].
+  assert (Hx : 0 <= x <= HALF).
+  { unfold abs_diff_sign in Ea. destruct (Z.leb_spec P base).
+    - destruct (dsub base P) as [dd|] eqn:Ed; cbn [obind] in Ea; [|discriminate].
+      injection Ea as <- _. apply dsub_some in Ed. lia.
+    - destruct (dadd (- base) P) as [dd|] eqn:Ed; cbn [obind] in Ea; [|discriminate].
+      injection Ea as <- _. apply dadd_some in Ed. unfold P, HALF in *. lia. }
+  apply pow_approx_loop_fuel; [lia|exact He|exact Hx|discriminate|vm_compute; reflexivity].
 Qed.
